@@ -193,6 +193,7 @@ def run(check, prog):
     check.extra['N_seeds'] = sorted(N_SEEDS)
     interface_level(check, prog)
     detector_constructors(check, prog)
+    geometry_helpers(check, prog)
 
 
 def detector_constructors(check, prog):
@@ -314,3 +315,47 @@ def interface_level(check, prog):
                   'the Mie/Multisphere rule compares quantities of equal weight '
                   '(separation <= 30 * radius)', prog.loc(q, prog.func(q)),
                   fail_detail='; '.join(conflicts)[:300])
+
+
+def geometry_helpers(check, prog):
+    """Positions handed to the solvers by clusters pass through the rigid-motion
+    helpers first (RigidCluster.scatterers, Scatterers.rotated / translated): these
+    must be homogeneous of degree 1 in the lengths -- no rounding to a fixed number
+    of decimals, no absolute tolerances, no added constants."""
+    CM = 'holopy.core.math.'
+    cases = [
+        (CM + 'rotate_points', {'points': F(1), 'theta': ZERO, 'phi': ZERO, 'psi': ZERO},
+         F(1), 'rotated points scale with the points'),
+        (CM + 'rotation_matrix', {'alpha': ZERO, 'beta': ZERO, 'gamma': ZERO,
+                                  'radians': ZERO}, ZERO, 'the rotation matrix is a pure number'),
+    ]
+    for q, seeds, want, text in cases:
+        fd = prog.func(q)
+        loc = prog.loc(q, fd)
+        it = Interp(prog, max_depth=2)
+        res = it.analyze(q)
+        w = Weigher(L_SEEDS, sym_seeds=seeds, name='L', loops=it.loops)
+        rws = []
+        for o in res.returns:
+            rws.append(w.uniform(w.w(o.value), o.value))
+            for ct, pol in o.cond:
+                if ct[0] not in ('loop-iter', 'exc'):
+                    w.w(ct)
+        for c in it.calls:
+            for a in list(c['args']) + [v for k, v in c['kwargs']]:
+                if a[0] != 'sym':
+                    w.w(a)
+        conflicts = [m for k, m, t in w.problems if k == 'conflict']
+        short = q.rpartition('.')[2]
+        for m in conflicts[:3]:
+            check.bad('E1-L-type-conflict', '%s: %s' % (short, m[:120]), m, loc)
+        if conflicts:
+            continue
+        if any(r == UNK for r in rws):
+            unk = [m for k, m, t in w.problems if k == 'unknown']
+            check.error('%s: result weight undetermined: %s' % (short, '; '.join(unk[:3])[:300]))
+            continue
+        check.require(all(r in (want, ANY) for r in rws) and rws, 'E1-L-result-weight',
+                      short, text + ' (L-weight %s)' % want, loc,
+                      fail_detail='%s returns values of L-weight %s' % (
+                          short, [str(r) for r in rws]))
